@@ -427,6 +427,13 @@ func (s *ProofStructure) VerifyProofStructure(g *gabikeys.PublicKey, p *Proof) b
 			return false
 		}
 
+		// C_i must be a group element: with C_i = 0 (or a multiple of n) every reconstructed
+		// commitment collapses to 0 whatever the responses are, so that any statement "verifies".
+		if p.Cs[i].Sign() <= 0 || p.Cs[i].Cmp(g.N) >= 0 ||
+			new(big.Int).GCD(nil, nil, p.Cs[i], g.N).Cmp(big.NewInt(1)) != 0 {
+			return false
+		}
+
 		if p.Cs[i].BitLen() > g.N.BitLen() ||
 			uint(p.DResponses[i].BitLen()) > s.ld+g.Params.Lh+g.Params.Lstatzk+1 ||
 			uint(p.VResponses[i].BitLen()) > g.Params.Lm+g.Params.Lh+g.Params.Lstatzk+1 {
